@@ -1,6 +1,7 @@
 (* C20 - Windows command lines and MSBuild solutions are well-formed and stable.
    Only statements; proofs live in theories/. *)
-From BFG Require Import Base.Chars Shell.WinQuote Shell.Msvcrt Shell.WinQuoteProofs State.Uuid State.UuidProofs.
+From BFG Require Import Base.Chars Shell.WinQuote Shell.Msvcrt Shell.WinQuoteProofs Shell.WinSplit Shell.WinSplitProofs Shell.WinSplitExact
+  State.Uuid State.UuidProofs.
 Local Open Scope N_scope.
 
 (* What windows.join writes is read back by the Microsoft C runtime argument rules as exactly the
@@ -52,6 +53,113 @@ Theorem C20_jbos_concat : forall us dd ep bits,
     msvcrt_parse dd t = [jbos_denotes bits].
 Proof. exact msvcrt_jbos. Qed.
 Print Assumptions C20_jbos_concat.
+
+(* ======================= windows.split on ARBITRARY lines =======================
+   windows.split is also applied to text bfg9000 did not write (flag variables such as CFLAGS, command strings
+   of build scripts, pkg-config output).  On every line in [split_dom] it returns exactly what the Microsoft C
+   runtime rules return, in all three variants of the doubled-quote rule.
+     split_dom line = no_tail_bs line && no_dd_pair line
+     no_tail_bs : the line does not end in a backslash;
+     no_dd_pair : no double quote that follows an even backslash run inside a quoted region is directly followed
+                  by another double quote (the doubled-quote rule of the C runtime never fires).
+   The two excluded classes are exactly the lines on which windows.split deviates from the C runtime: the guard
+   is exact (C20_split_dom_exact below; and on the real code, exhaustive comparison with the C runtime loop on
+   all lines up to length 6 / 8 over a, space, tab, double quote, backslash on every run: harness/c20.py stage
+   R/W:split-vs-crt, where outside the guard the readers differ on every line).  Neither class contains a line windows.join writes
+   (C20_join_in_split_dom, C20_split_join_pieces), so they are boundaries of the domain of split and not
+   violations of the property. *)
+Theorem C20_split_is_crt : forall dd line, split_dom line = true -> split line = msvcrt_parse dd line.
+Proof. exact split_is_crt. Qed.
+Print Assumptions C20_split_is_crt.
+
+(* per variant: for the C runtime without the doubled-quote rule the only condition is the final backslash run *)
+Theorem C20_split_is_crt_nodd : forall line, no_tail_bs line = true -> split line = msvcrt_parse DDnone line.
+Proof. exact split_is_crt_nodd. Qed.
+Print Assumptions C20_split_is_crt_nodd.
+
+(* the variants of the C runtime agree wherever the doubled-quote rule never fires *)
+Theorem C20_crt_variants_agree : forall dd line, no_dd_pair line = true -> msvcrt_parse dd line = msvcrt_parse DDnone line.
+Proof. exact crt_variants_agree. Qed.
+Print Assumptions C20_crt_variants_agree.
+
+(* without any guard: windows.split reads EVERY line as the C runtime (no doubled-quote rule) reads the line
+   without its final backslash run; this is the whole deviation of class 1 *)
+Theorem C20_split_is_crt_stripped : forall line, split line = msvcrt_parse DDnone (strip_tbs line).
+Proof. exact split_stripped. Qed.
+Print Assumptions C20_split_is_crt_stripped.
+
+(* the guard is exact: split_dom is precisely the set of lines that windows.split reads as all three variants of
+   the C runtime do.  Per class: a line that ends in a backslash is read differently by EVERY variant (the
+   arguments the C runtime returns contain more backslashes), and a line on which the doubled-quote rule fires is
+   read differently by both variants that have the rule (their arguments contain more double quotes) *)
+Theorem C20_split_dom_exact : forall line,
+  split_dom line = true <-> forall dd, split line = msvcrt_parse dd line.
+Proof. exact split_dom_iff. Qed.
+Print Assumptions C20_split_dom_exact.
+
+Theorem C20_split_tail_bs_differs : forall dd line,
+  no_tail_bs line = false -> split line <> msvcrt_parse dd line.
+Proof. exact split_tail_bs_differs. Qed.
+Print Assumptions C20_split_tail_bs_differs.
+
+Theorem C20_split_dd_differs : forall dd line, dd <> DDnone ->
+  no_tail_bs line = true -> no_dd_pair line = false -> split line <> msvcrt_parse dd line.
+Proof. exact split_dd_differs. Qed.
+Print Assumptions C20_split_dd_differs.
+
+(* deviation class 1 (final backslash run), witness C:\dir\ : split gives C:\dir, every variant of the
+   C runtime C:\dir\ *)
+Theorem C20_split_is_crt_tail_bs_refuted : exists line,
+  no_tail_bs line = false /\ no_dd_pair line = true /\ forall dd, split line <> msvcrt_parse dd line.
+Proof.
+  exists [67; 58; c_bs; 100; c_bs]. repeat split; try reflexivity. intros dd; destruct dd; vm_compute; discriminate.
+Qed.
+Print Assumptions C20_split_is_crt_tail_bs_refuted.
+
+(* deviation class 2 (doubled quote inside a quoted region), witness dq a dq dq b dq : split gives ab like the
+   variant without the rule, both variants with the rule give a dq b *)
+Theorem C20_split_is_crt_dd_refuted : exists line,
+  no_tail_bs line = true /\ no_dd_pair line = false /\ split line = msvcrt_parse DDnone line /\
+  split line <> msvcrt_parse DDpost2008 line /\ split line <> msvcrt_parse DDpre2008 line.
+Proof.
+  exists [c_dq; 97; c_dq; c_dq; 98; c_dq]. repeat split; try reflexivity; vm_compute; discriminate.
+Qed.
+Print Assumptions C20_split_is_crt_dd_refuted.
+
+(* the lines windows.join writes lie in the domain *)
+Theorem C20_join_in_split_dom : forall us args,
+  Forall (fun s => win_ok s = true) args -> split_dom (join us args) = true.
+Proof. exact join_in_split_dom. Qed.
+Print Assumptions C20_join_in_split_dom.
+
+(* arguments made of several pieces (a jbos of strings, quoted piece by piece, and shell literals written as
+   they are: the quoted regions sit in the MIDDLE of an argument): the line windows.join writes lies in the
+   domain, and windows.split - as every variant of the C runtime - returns the concatenations of the pieces.
+   Extends C20_jbos_concat from the C runtime reader to the splitter of bfg9000 and to whole lines. *)
+Theorem C20_split_join_pieces : forall us args, Forall pieces_ok args ->
+  exists line, join_sargs us (map SJbos args) = Some line /\ split_dom line = true /\
+    split line = map jbos_denotes args /\ forall dd, msvcrt_parse dd line = map jbos_denotes args.
+Proof. exact split_join_pieces. Qed.
+Print Assumptions C20_split_join_pieces.
+
+(* non-vacuity of the guard: lines nobody at bfg9000 wrote - a quoted region in the middle of a path, a
+   backslash run before a quote, an unterminated quote, an empty argument, tabs - are in the domain, and the
+   readers agree by computation *)
+Example C20_split_is_crt_nonvacuous :
+  let l1 := [c_dq; 67; 58; c_bs; 80; 32; 70; c_dq; c_bs; 76; c_bs; 99; 108; 32; 47; 68; 88; 61; c_bs; c_dq; 97; c_bs; c_dq] in
+  let l2 := [97; c_bs; c_bs; c_dq; 98; 32; 99; c_dq; 9; c_dq; c_dq; 32; c_dq; 100; 32] in
+  split_dom l1 = true /\ split l1 = [[67; 58; c_bs; 80; 32; 70; c_bs; 76; c_bs; 99; 108]; [47; 68; 88; 61; c_dq; 97; c_dq]] /\
+  msvcrt_parse DDpost2008 l1 = split l1 /\
+  split_dom l2 = true /\ split l2 = [[97; c_bs; 98; 32; 99]; []; [100; 32]] /\ msvcrt_parse DDpre2008 l2 = split l2.
+Proof. repeat split; vm_compute; reflexivity. Qed.
+
+Example C20_split_join_pieces_nonvacuous :
+  let args := [[BLit [45; 73]; BStr [67; 58; c_bs; 109; 32; 100; c_bs]; BLit [120]]; [BStr [97; c_dq; 32]; BLit [61; 49]]] in
+  (pieces_ok (nth 0 args []) /\ pieces_ok (nth 1 args [])) /\
+  join_sargs (fun _ => false) (map SJbos args) =
+    Some [45; 73; c_dq; 67; 58; c_bs; 109; 32; 100; c_bs; c_bs; c_dq; 120; 32; c_dq; 97; c_bs; c_dq; 32; c_dq; 61; 49] /\
+  map jbos_denotes args = [[45; 73; 67; 58; c_bs; 109; 32; 100; c_bs; 120]; [97; c_dq; 32; 61; 49]].
+Proof. repeat split; try (vm_compute; reflexivity); discriminate. Qed.
 
 (* non-vacuity: an argument list with blanks, quotes, backslash runs before quotes and at the end,
    cmd metacharacters and an empty argument is in the domain and round-trips by computation *)
